@@ -1,3 +1,16 @@
+// Package c15 checks property C15: "A duty height once started or decided is never run again, even after restart".
+//
+// A program drives one real attester runner + its qbft controller + the real ibft/storage on Badger through duty
+// starts, decided certificates (past / current / future heights, growing and shrinking signer sets, same or another
+// round), messages of the other operators up to a local decision, and restarts (brand-new objects +
+// LoadHighestInstance on the same store, database re-opened in on-disk cases). A small reference model written from
+// the statement judges the observable results only: nil/error of StartNewDuty and StartNewInstance, what
+// QBFTStore.GetHighestInstance returns after every step and after a restart, Controller.Height after the restart.
+//
+// Open point of DESIGN.md (certificate for another round of the same height): judged by the statement's last
+// sentence ("at the same height, by one with more signers"), under its own signature
+// C15:stored-cert-replaced-without-more-signers:other-round; when that signature is listed in KNOWN_FINDINGS.txt the
+// run steps over it and goes on searching behind it.
 package c15
 
 import (
@@ -305,18 +318,13 @@ func (e *env) observe() stored {
 		panic(err)
 	}
 	s := stored{present: true, all: all}
-	if si.DecidedMessage != nil {
-		s.height = uint64(si.DecidedMessage.Message.Height)
-		s.round = uint64(si.DecidedMessage.Message.Round)
-		s.signers = si.DecidedMessage.Signers
-		s.msg, _ = si.DecidedMessage.Encode()
+	if si.DecidedMessage == nil || si.State == nil {
+		panic("stored highest instance without state or decided message")
 	}
-	if si.State != nil && uint64(si.State.Height) != s.height {
-		// never seen; judged as a height decrease/increase by whichever is lower
-		if uint64(si.State.Height) < s.height {
-			s.height = uint64(si.State.Height)
-		}
-	}
+	s.height = uint64(si.DecidedMessage.Message.Height)
+	s.round = uint64(si.DecidedMessage.Message.Round)
+	s.signers = si.DecidedMessage.Signers
+	s.msg, _ = si.DecidedMessage.Encode()
 	return s
 }
 
@@ -737,6 +745,9 @@ func run(p Prog) *prog.Result {
 	for c := range classes {
 		res.Classes = append(res.Classes, c)
 	}
+	if res.NonTrivial {
+		res.Sample = map[string]any{"program": p, "resolved": e.log}
+	}
 	sort.Strings(res.Classes)
 	return res
 }
@@ -782,7 +793,7 @@ func gen(t *rapid.T) Prog {
 		N:    n,
 		Self: rapid.IntRange(1, n).Draw(t, "self"),
 		Full: rapid.Bool().Draw(t, "full"),
-		Disk: rapid.IntRange(0, 29).Draw(t, "disk") == 0,
+		Disk: rapid.IntRange(0, 24).Draw(t, "disk") == 13, // rapid favours small values: a middle value keeps disk cases rare (re-open costs > 1 s)
 		Base: rapid.SampledFrom([]uint64{1, 2, 40, 6000000, 6000000, 6000000, 0}).Draw(t, "base"),
 		Ops:  rapid.SliceOfN(rapid.Custom(genOp), 2, 20).Draw(t, "ops"),
 	}
